@@ -127,6 +127,13 @@ def worker(c):
         try:
             d0 = m.make_data()
             _run_ops(L, m, d0, ops)
+            if not (np.isfinite(d0["qpos"]).all() and np.isfinite(d0["qvel"]).all() and np.isfinite(d0["act"]).all()):
+                # the history diverged: the integration state is not a state any more (blow-ups are C30's subject; with a NaN tendon
+                # length mj_tendon e.g. leaves wrap_obj slots of a counted wrap undefined, which only a non-finite state can reach)
+                P.count("skipped_nonfinite_state_after_history")
+                P.case(nontrivial=False)
+                d0.free()
+                continue
             if twin == "copy":
                 d1 = d0.copy()
             elif twin == "replay":
